@@ -12,8 +12,10 @@ for s in $ids; do
      if ! (cd /repo && patch -p1 -F3 -s < /verif/seeded/$s/patch.diff >/dev/null 2>&1); then echo "$s: patch does not apply"; git -C /repo checkout -- .; find /repo -name '*.orig' -o -name '*.rej' | xargs -r rm; continue; fi
   fi
   t0=$(date +%s)
+  cp evidence/$prop.json /tmp/evidence.$prop.bak 2>/dev/null
   ./check $prop --tier $TIER > /tmp/seedrun.$s.log 2>&1; rc=$?
   t1=$(date +%s)
+  cp /tmp/evidence.$prop.bak evidence/$prop.json 2>/dev/null
   git -C /repo checkout -- .; find /repo -name '*.orig' -o -name '*.rej' | xargs -r rm
   nv=$(grep -c '^VIOLATION' /tmp/seedrun.$s.log)
   echo "$s: check=$prop tier=$TIER exit=$rc violations=$nv time=$((t1-t0))s :: $(grep -m1 -A1 '^VIOLATION' /tmp/seedrun.$s.log | tail -1 | cut -c1-200) $(grep -m1 -E 'HARNESS-ERROR|INCONCLUSIVE' /tmp/seedrun.$s.log | cut -c1-160)"
